@@ -474,10 +474,13 @@ func (g *guardCtx) receiverNeverNil(recv ast.Expr, fd *ast.FuncDecl) bool {
 	return calls > 0 && allOK
 }
 
-func (g *guardCtx) guardOfDeref(x *ast.StarExpr, stack []ast.Node) string {
+func (g *guardCtx) guardOfDeref(x *ast.StarExpr, stack []ast.Node, fd *ast.FuncDecl) string {
 	key := g.str(unparen(x.X))
 	if u, ok := unparen(x.X).(*ast.UnaryExpr); ok && u.Op == token.AND {
 		return "address-of"
+	}
+	if g.localAddressOf(x.X, fd) {
+		return "address-of-local"
 	}
 	for _, f := range g.knownAt(x, stack) {
 		if f.kind == "nonnil" && f.expr == key {
@@ -485,6 +488,117 @@ func (g *guardCtx) guardOfDeref(x *ast.StarExpr, stack []ast.Node) string {
 		}
 	}
 	return ""
+}
+
+// grownByLenOfRanged: the site is `a[base+i]` inside `for i := range B { … }`, and the two statements just before that
+// loop, in the same block, are `base := len(a)` and `a = append(a, make(T, len(B))...)`; the loop assigns none of a, base, B.
+// At loop entry len(a) = base + len(B), and i < len(B).
+func (g *guardCtx) grownByLenOfRanged(x *ast.IndexExpr, stack []ast.Node) bool {
+	sum, ok := unparen(x.Index).(*ast.BinaryExpr)
+	if !ok || sum.Op != token.ADD {
+		return false
+	}
+	base, ok1 := unparen(sum.X).(*ast.Ident)
+	idx, ok2 := unparen(sum.Y).(*ast.Ident)
+	if !ok1 || !ok2 {
+		return false
+	}
+	a := g.str(x.X)
+	for i := len(stack) - 1; i >= 1; i-- {
+		rs, ok := stack[i].(*ast.RangeStmt)
+		if !ok {
+			continue
+		}
+		k, ok := rs.Key.(*ast.Ident)
+		if !ok || g.info.ObjectOf(k) == nil || g.info.ObjectOf(k) != g.info.ObjectOf(idx) {
+			continue
+		}
+		blk, ok := stack[i-1].(*ast.BlockStmt)
+		if !ok {
+			return false
+		}
+		pos := -1
+		for j, st := range blk.List {
+			if st == ast.Stmt(rs) {
+				pos = j
+			}
+		}
+		if pos < 2 {
+			return false
+		}
+		b := g.str(rs.X)
+		if g.str(blk.List[pos-2]) != base.Name+" := len("+a+")" {
+			return false
+		}
+		grow, ok := blk.List[pos-1].(*ast.AssignStmt)
+		if !ok || grow.Tok != token.ASSIGN || len(grow.Lhs) != 1 || len(grow.Rhs) != 1 || g.str(grow.Lhs[0]) != a {
+			return false
+		}
+		call, ok := grow.Rhs[0].(*ast.CallExpr)
+		if !ok || !call.Ellipsis.IsValid() || len(call.Args) != 2 || g.str(call.Fun) != "append" || g.str(call.Args[0]) != a {
+			return false
+		}
+		mk, ok := call.Args[1].(*ast.CallExpr)
+		if !ok || g.str(mk.Fun) != "make" || len(mk.Args) != 2 {
+			return false
+		}
+		if l, ok := g.lenOf(mk.Args[1]); !ok || l != b {
+			return false
+		}
+		return !g.assignsTo(rs.Body, a) && !g.assignsTo(rs.Body, base.Name) && !g.assignsTo(rs.Body, b) && !g.assignsTo(rs.Body, idx.Name)
+	}
+	return false
+}
+
+// localAddressOf: `p` is a local identifier whose one and only assignment in the enclosing function is the definition
+// `p := &<operand>` (and whose own address is never taken): it is never nil.
+func (g *guardCtx) localAddressOf(e ast.Expr, fd *ast.FuncDecl) bool {
+	id, ok := unparen(e).(*ast.Ident)
+	if !ok {
+		return false
+	}
+	obj := g.info.ObjectOf(id)
+	if obj == nil {
+		return false
+	}
+	if fd == nil || fd.Body == nil {
+		return false
+	}
+	body := fd.Body
+	defs, good := 0, false
+	ast.Inspect(body, func(n ast.Node) bool {
+		switch st := n.(type) {
+		case *ast.AssignStmt:
+			for i, l := range st.Lhs {
+				lid, ok := unparen(l).(*ast.Ident)
+				if !ok || g.info.ObjectOf(lid) != obj {
+					continue
+				}
+				defs++
+				if st.Tok == token.DEFINE && len(st.Lhs) == len(st.Rhs) {
+					if u, ok := unparen(st.Rhs[i]).(*ast.UnaryExpr); ok && u.Op == token.AND {
+						good = true
+					}
+				}
+			}
+		case *ast.IncDecStmt:
+			if lid, ok := unparen(st.X).(*ast.Ident); ok && g.info.ObjectOf(lid) == obj {
+				defs++
+			}
+		case *ast.UnaryExpr:
+			if lid, ok := unparen(st.X).(*ast.Ident); ok && st.Op == token.AND && g.info.ObjectOf(lid) == obj {
+				defs += 2
+			}
+		case *ast.RangeStmt:
+			for _, kv := range []ast.Expr{st.Key, st.Value} {
+				if lid, ok := kv.(*ast.Ident); ok && g.info.ObjectOf(lid) == obj {
+					defs += 2
+				}
+			}
+		}
+		return true
+	})
+	return good && defs == 1
 }
 
 func (g *guardCtx) lenAtLeast(a string, n int64, site ast.Node, stack []ast.Node) bool {
@@ -634,6 +748,9 @@ func (g *guardCtx) guardOfIndex(x *ast.IndexExpr, stack []ast.Node, fd *ast.Func
 	}
 	if g.sortInterfaceIndex(x, fd) {
 		return "sort-interface-method"
+	}
+	if g.grownByLenOfRanged(x, stack) {
+		return "grown-by-len-of-ranged"
 	}
 	for _, f := range g.knownAt(x, stack) {
 		if f.kind == "idxLT" && f.expr == a && f.idx == g.str(g.unconv(x.Index)) {
@@ -915,18 +1032,19 @@ func (g *guardCtx) sameArrayLen(a, b ast.Expr) bool {
 	return ok1 && ok2 && x.Len() == y.Len()
 }
 
-// madeWithLenOf: `a` is a local identifier whose only assignment in the function is `a := make(T, len(<other>))`
-// (also with an equal capacity argument).
+// madeWithLenOf: the only assignment to `a` in the function is `a := make(T, len(<other>))` (also with an equal
+// capacity argument), or `a = make(T, n)` directly inside `if n := len(<other>); n > 0 { … }` (the operand stays nil
+// only when <other> is empty, and then a range over <other> has no iteration); <other> is not re-assigned in the function.
 func (g *guardCtx) madeWithLenOf(a ast.Expr, other string, fd *ast.FuncDecl) bool {
 	if fd == nil || fd.Body == nil {
 		return false
 	}
 	target := g.str(unparen(a))
-	assignments, good := 0, false
-	ast.Inspect(fd.Body, func(n ast.Node) bool {
+	assignments, good, guarded := 0, false, false
+	walkStack(fd.Body, func(n ast.Node, stack []ast.Node) {
 		as, ok := n.(*ast.AssignStmt)
 		if !ok {
-			return true
+			return
 		}
 		for i, l := range as.Lhs {
 			if g.str(unparen(l)) != target {
@@ -940,14 +1058,44 @@ func (g *guardCtx) madeWithLenOf(a ast.Expr, other string, fd *ast.FuncDecl) boo
 			if !ok || len(call.Args) < 2 {
 				continue
 			}
-			if f, ok := call.Fun.(*ast.Ident); ok && f.Name == "make" {
-				if x, ok := g.lenOf(call.Args[1]); ok && x == other {
-					good = true
-				}
+			f, ok := call.Fun.(*ast.Ident)
+			if !ok || f.Name != "make" {
+				continue
 			}
+			if x, ok := g.lenOf(call.Args[1]); ok && x == other {
+				good = true
+				continue
+			}
+			// a = make(T, n) as a statement of the body of `if n := len(other); n > 0`
+			nid, ok := unparen(call.Args[1]).(*ast.Ident)
+			if !ok || len(stack) < 2 {
+				continue
+			}
+			blk, ok1 := stack[len(stack)-1].(*ast.BlockStmt)
+			ifs, ok2 := stack[len(stack)-2].(*ast.IfStmt)
+			if !ok1 || !ok2 || ifs.Body != blk || ifs.Init == nil {
+				continue
+			}
+			init, ok := ifs.Init.(*ast.AssignStmt)
+			if !ok || init.Tok != token.DEFINE || len(init.Lhs) != 1 || len(init.Rhs) != 1 || g.str(init.Lhs[0]) != nid.Name {
+				continue
+			}
+			if x, ok := g.lenOf(init.Rhs[0]); !ok || x != other {
+				continue
+			}
+			cond := g.str(ifs.Cond)
+			if cond != nid.Name+" > 0" && cond != nid.Name+" != 0" {
+				continue
+			}
+			if g.assignsTo(ifs.Body, nid.Name) {
+				continue
+			}
+			good, guarded = true, true
 		}
-		return true
 	})
+	if guarded && g.assignsTo(fd.Body, other) {
+		return false
+	}
 	return good && assignments == 1
 }
 
